@@ -36,12 +36,20 @@ def describe(f):
 
 def record(ctx, scenarios, nbig):
     mode = "small+big"
-    rc, out = vlib.go_driver(ctx, PKG, "^TestVerifTransferBlocks$", module_dir=MOD, files=FILES, timeout=1500,
-                             env={"VERIF_SCENARIOS": scenarios, "VERIF_BIG": nbig})
+    def drive():
+        return vlib.go_driver(ctx, PKG, "^TestVerifTransferBlocks$", module_dir=MOD, files=FILES, timeout=1500,
+                              env={"VERIF_SCENARIOS": scenarios, "VERIF_BIG": nbig})
+    rc, out = drive()
+    if rc != 0 and re.search(r"HANG: .*", out):
+        # a watchdog verdict counts only if the (seeded) recording hangs again: a stall of a loaded machine does not repeat
+        print("note: %s - recording again to confirm" % re.search(r"HANG: .*", out).group(0))
+        rc, out = drive()
     if rc != 0:
         m = re.search(r"HANG: .*", out)
         if m:
-            raise vlib.Violation("real code hung: " + m.group(0), replay=None, signature="hang")
+            rp = vlib.save_replay(ctx, {"property": ctx.prop, "seed": ctx.seed, "tier": ctx.tier, "hang": m.group(0),
+                                        "output_tail": out[-3000:]}, name="hang.json")
+            raise vlib.Violation("real code hung (twice in two recordings): " + m.group(0), replay=rp, signature="hang")
         pn = vlib.panic_in_repo(out)
         if pn:
             rp = vlib.save_replay(ctx, {"property": ctx.prop, "seed": ctx.seed, "tier": ctx.tier, "mode": mode, "panic": pn,
